@@ -203,6 +203,17 @@ theorem unusable_mapping_refused (w : World) (id : ConnIdent) (req : Req) (ts : 
   | none => simp
   | some m => simp [h m hg]
 
+/-- **Expired means expired, by any margin.**  If the clock has passed the `ExpiresAt` of the addressed tunnel's
+mapping — by one tick or by an hour, there is no grace period — the request is refused, whoever asks, whatever is
+presented, in every tunnel state. -/
+theorem expired_refused (w : World) (id : ConnIdent) (req : Req) (ts : TunnelState) (hwf : identWF id = true)
+    (m : PortMapping) (t : Nat) (hm : w.getPortMapping (tunnelMappingID req ts) = some m)
+    (ht : m.ExpiresAt = some t) (hlt : t < w.now) : openTunnel w id req ts = refuse := by
+  apply unusable_mapping_refused w id req ts hwf
+  intro m' hm'
+  rw [hm] at hm'; cases hm'
+  simp [mappingUsable, ht, hlt]
+
 /-- A connection that is not authenticated — no completed handshake and no transport vouching for a client — is
 refused in every tunnel state, in particular when a bridge is waiting or a route points to another node. -/
 theorem unauthenticated_refused (w : World) (id : ConnIdent) (req : Req) (ts : TunnelState)
@@ -547,5 +558,20 @@ example : holdsDyn wTwo listenClient midReq .none .none ⟨.ok, .source, false, 
 -- a served bridge keeps its target: the rightful target's duplicate open is acknowledged, not attached
 example : openTunnel wTwo targetClient secretReq (.bridge "M" true) = ⟨.ok, .none, .switch⟩ := by decide
 example : openTunnel wTwo targetClient secretReq (.bridge "M" false) = ⟨.ok, .target, .switch⟩ := by decide
+
+/-! ### expiry is a strict comparison with the clock -/
+
+def wExp (t : Nat) : World :=
+  { mappings := [⟨"M", 11, 22, "s3cretM", "active", false, some t⟩], now := 1000, nodeID := "node-A" }
+
+-- expired one second ago: refused on both credential paths, in every tunnel state; what `holds` rejects is the
+-- observation made with a grace period in IsExpired
+example : openTunnel (wExp 999) listenClient midReq .none = refuse := by decide
+example : openTunnel (wExp 999) targetClient secretReq (.bridge "M" false) = refuse := by decide
+example : openTunnel (wExp 971) targetClient secretReq (.remote "M" "node-B") = refuse := by decide
+example : holds (wExp 999) targetClient secretReq (.bridge "M" false) ⟨.ok, .target, true, 1, "M"⟩ = false := by decide
+-- expiring at this very moment or later: still served
+example : openTunnel (wExp 1000) listenClient midReq .none = ⟨.ok, .source, .switch⟩ := by decide
+example : openTunnel (wExp 1002) targetClient secretReq (.bridge "M" false) = ⟨.ok, .target, .switch⟩ := by decide
 
 end Tunnox.C04
